@@ -648,7 +648,7 @@ def run_tmcmc_updated(
         )
 
         # Calculate covaraince matrix using Wm_n
-        Cm = np.cov(Sm, aweights=Wm_n, rowvar=0)
+        Cm = np.atleast_2d(np.cov(Sm, aweights=Wm_n, rowvar=0))  # a single parameter gives a 0-d covariance
 
         # * --------------------------------------------------------- Resample
         # Resampling using plausible weights
@@ -892,7 +892,7 @@ def run_tmcmc(
         )
 
         # Calculate covaraince matrix using Wm_n
-        Cm = np.cov(Sm, aweights=Wm_n, rowvar=0)
+        Cm = np.atleast_2d(np.cov(Sm, aweights=Wm_n, rowvar=0))  # a single parameter gives a 0-d covariance
 
         # * --------------------------------------------------------- Resample
         # Resampling using plausible weights
